@@ -86,6 +86,8 @@ fn handle_breach_step(confirmed: bool) {
     let w0 = r.dbm.lock().unwrap().verif_writes();
     let st = r.handle_breach(uuid(0), Breach::new(dispute.clone(), penalty.clone()), user(0));
     let (n_sent, n_q, last) = unsafe { (node::N_SENT, node::N_QUERIED, node::LAST_OUTCOME) };
+    assert!(n_q <= 1 && (n_q == 0 || unsafe { node::QUERIED[0] } == Some(txid_model(&penalty))),
+        "C02: the only thing the node is asked about is the penalty (a dispute in the node's mempool justifies no shortcut)");
     if confirmed {
         assert!(st == ConfirmationStatus::ConfirmedIn(tip), "C01.respond: a penalty found in the recent-block index is ConfirmedIn(its block's height)");
         assert!(n_sent == 0 && n_q == 0, "C02: nothing is sent for a penalty that is already confirmed");
